@@ -12,8 +12,8 @@ Model of the resolver caches of `dns/resolver.py`: `CacheBase`, `Cache`, `LRUCac
 * `Node.stamp` / `LState.tick` are **ghost** fields (not in the code): `tick` counts operations, `stamp` is the
   `tick` of the last `put`/hit of that node.  No branch looks at them; they only let the theorems say
   "least recently used" in terms of time rather than in terms of the list itself.
-* `intended = true` selects the variant of `set_max_size` that evicts down to the new limit at once (what the
-  property asks for); `intended = false` is the code as shipped (DESIGN §6 D14).
+* `set_max_size` is the repaired one (takes the lock, evicts down to the new limit at once; DESIGN §6 D14 was fixed
+  in the repository).
 -/
 namespace Model.Cache
 
@@ -147,7 +147,7 @@ def evictLoop (limit : Nat) : Nat → List Node → List Node
 
 def evictTo (limit : Nat) (r : List Node) : List Node := evictLoop limit r.length r
 
-def stepL (intended : Bool) (s : LState) (op : Op) : LState × Out :=
+def stepL (s : LState) (op : Op) : LState × Out :=
   let s := { s with tick := s.tick + 1 }
   match op with
   | .get k =>
@@ -165,8 +165,7 @@ def stepL (intended : Bool) (s : LState) (op : Op) : LState × Out :=
   | .flushAll => ({ s with ring := [] }, .unit)
   | .setMax n =>
     let m := clampMax n
-    if intended then ({ s with maxSize := m, ring := evictTo (m + 1) s.ring }, .unit)
-    else ({ s with maxSize := m }, .unit)
+    ({ s with maxSize := m, ring := evictTo (m + 1) s.ring }, .unit)
   | .adv dt => ({ s with now := s.now + dt }, .unit)
   | .hits => (s, .num s.hits)
   | .misses => (s, .num s.misses)
@@ -177,11 +176,11 @@ def stepL (intended : Bool) (s : LState) (op : Op) : LState × Out :=
   | .reset => ({ s with hits := 0, misses := 0 }, .unit)
   | .snapshot => (s, .stats s.hits s.misses)
 
-def runL (intended : Bool) (s : LState) : List Op → LState × List Out
+def runL (s : LState) : List Op → LState × List Out
   | [] => (s, [])
   | op :: rest =>
-    let r := stepL intended s op
-    let q := runL intended r.1 rest
+    let r := stepL s op
+    let q := runL r.1 rest
     (q.1, r.2 :: q.2)
 
 /-! ## lock discipline: `with self.lock: body`
